@@ -24,6 +24,8 @@ def openImage (m : Spec.Img) (p : Params) (comp : FMap (FMap Nat)) (back : Optio
   let info ← Info.new { clusterBits := h.cb, refcountOrder := h.ro, size := h.size,
                         hasBackingName := h.backingOff ≠ 0 } p
   let cs := 2^h.cb
+  -- `Qcow2Dev::new` refuses images without L1 table (size 0) or refcount table
+  if ramL1Len h.size h.cb p.bsBits = 0 ∨ h.rtClusters = 0 then .err .invalid else
   let l1Len := ramL1Len h.size h.cb p.bsBits
   let l1 := (List.range l1Len).foldl (fun acc i =>
     let w := m.word (h.l1Off + i * 8)
